@@ -36,7 +36,7 @@ Judge ==
       z1  == Abs(B.post.root)
       midsWF == \A k \in 1..Len(B.mids) : Good(B.mids[k].root, d)
       offP == [k \in 1..Len(B.offers) |-> B.offers[k].p]
-      extra == \E k \in 1..Len(sc) : sc[k].ch \in {"touch", "dense"}      \* bodies outside C05's modelled choices: C01 / C02 clauses only
+      extra == \E k \in 1..Len(sc) : sc[k].ch \in {"touch", "dense", "copyin", "clearit"}      \* bodies outside C05's modelled choices: C01 / C02 clauses only
   IN IF B.exc # "ok" THEN <<"P:C05:no-exception">>
      ELSE IF extra THEN Fails(<<
        <<"P:C05:wf-throughout", midsWF /\ okp>>,
